@@ -213,6 +213,9 @@ def ephem_case(mode, K):
                     raise AssertionError("unwinding bound exceeded")
             out["count"] = n
             out["listeners_cleared_once"] = 1 if len(cleared) == 1 else 0
+            if mode == "dates":
+                # an explicit but empty list of dates yields nothing
+                out["empty_list_count"] = len(list(e.iter(dates=[])))
             return out
         finally:
             if not env.symbolic:
@@ -222,6 +225,7 @@ def ephem_case(mode, K):
         n = out["count"]
         r = {"listeners_cleared_once": 1}
         if mode == "dates":
+            r["empty_list_count"] = 0
             r["count"] = 2
             r["t0"] = v["off"]
             r["t1"] = v["off"] + v["span"]
